@@ -162,7 +162,7 @@ def scenarios_for(prop: str, tier: str, seed: int = 0) -> List[Scenario]:
                 scripts = {'ins-ins': [('insert', 0), ('insert', 1)], 'rem-rem': [('remove', 0), ('remove', 1)], 'ins-rem': [('insert', 0), ('remove', 1)]}
                 if hasher == 'mixed' and not thorough:
                     scripts = {'ins-rem': [('insert', 0), ('remove', 1)], 'rem-rem': [('remove', 0), ('remove', 1)]}
-                if thorough:
+                if thorough and n_pre == 9:
                     scripts.update({'ins-ins-ins': [('insert', 0), ('insert', 1), ('insert', 2)], 'rem-ins-rem': [('remove', 0), ('insert', 1), ('remove', 2)]})
                 for nm, ops in scripts.items():
                     add('%s/tree%d/%s' % (hasher, n_pre, nm), hasher=hasher, capacity=40, prefill=pre, ops=ops, universe=uni, check_each_step=True)
